@@ -153,19 +153,28 @@ fn covered(by: &[Range<u64>], r: &Range<u64>) -> bool {
 pub fn run_push(fc: &FileCtx, o: &Opts, api0: Api, script: &[(usize, usize)], want: &Rows, keep_trace: bool) -> Result<PushRun, Viol> {
     let env = PushEnv { fc, file_len: fc.f.bytes.len() as u64, rg_spans: rg_spans(fc.meta(o).metadata()) };
     let v = |fp: &str, msg: String| -> Viol { (format!("c15:push:{fp}"), msg) };
-    let perr = |what: &str, e: ParquetError| -> Viol { (format!("c15:push:error:{what}:{}", vcore::strip_digits(&e.to_string())), e.to_string()) };
+    let perr = |what: &str, e: ParquetError| -> Viol { (format!("c15:error:{}", vcore::strip_digits(&e.to_string())), format!("{what}: {e}")) };
     let mut run = PushRun { points: vec![], calls: 0, pushes: 0, states: vec![], trace: vec![], requested_bytes: 0 };
     let mut api = api0;
     let mut bs = o.batch.unwrap_or(1024).min(fc.f.nrows);
     let b = ParquetPushDecoderBuilder::new_with_metadata(fc.meta(o).clone());
     let mut dec: ParquetPushDecoder = fc.apply(b, o).build().map_err(|e| perr("build", e))?;
-    let mut rows: Rows = vec![];
-    let mut deferred: Vec<ParquetRecordBatchReader> = vec![];
+    // output in emission order: decoded rows, or a reader whose draining is deferred to the end
+    enum Chunk {
+        Rows(Rows),
+        Deferred(ParquetRecordBatchReader),
+    }
+    let mut out: Vec<Chunk> = vec![];
+    let mut emitted = 0usize;
+    let mut n_deferred = 0usize;
     let mut first_call = true;
     // progress bookkeeping: ranges of the last fully answered request
     let mut answered: Option<Vec<Range<u64>>> = None;
     // ranges that must be re-requested (after a strict-subset answer)
     let mut must_rerequest: Option<Vec<Range<u64>>> = None;
+    // buffers pushed as strict supersets / early data and not cleared by the harness since: the decoder
+    // releases only ranges equal to its own requests, so bytes inside these must never be requested
+    let mut supers: Vec<Range<u64>> = vec![];
     let choose = |run: &mut PushRun, n_alts: usize| -> usize {
         let p = run.points.len();
         run.points.push(n_alts);
@@ -183,11 +192,11 @@ pub fn run_push(fc: &FileCtx, o: &Opts, api0: Api, script: &[(usize, usize)], wa
         let data: Vec<Bytes> = ranges.iter().map(|r| slice(fc, r)).collect();
         if one_by_one {
             for (r, d) in ranges.into_iter().zip(data) {
-                dec.push_range(r, d).map_err(|e| (format!("c15:push:error:push_range:{}", vcore::strip_digits(&e.to_string())), e.to_string()))?;
+                dec.push_range(r, d).map_err(|e| (format!("c15:error:{}", vcore::strip_digits(&e.to_string())), format!("push_range: {e}")))?;
                 run.pushes += 1;
             }
         } else {
-            dec.push_ranges(ranges, data).map_err(|e| (format!("c15:push:error:push_ranges:{}", vcore::strip_digits(&e.to_string())), e.to_string()))?;
+            dec.push_ranges(ranges, data).map_err(|e| (format!("c15:error:{}", vcore::strip_digits(&e.to_string())), format!("push_ranges: {e}")))?;
             run.pushes += 1;
         }
         let after = dec.buffered_bytes();
@@ -225,9 +234,18 @@ pub fn run_push(fc: &FileCtx, o: &Opts, api0: Api, script: &[(usize, usize)], wa
         }
         match act {
             Pre::Nothing => {}
-            Pre::PushWholeFile => push(&mut dec, &mut run, vec![0..env.file_len], false)?,
-            Pre::PushFirstRowGroup => push(&mut dec, &mut run, vec![env.rg_spans[0].clone()], false)?,
-            Pre::PushLastRowGroup => push(&mut dec, &mut run, vec![env.rg_spans.last().unwrap().clone()], false)?,
+            Pre::PushWholeFile => {
+                supers.push(0..env.file_len);
+                push(&mut dec, &mut run, vec![0..env.file_len], false)?
+            }
+            Pre::PushFirstRowGroup => {
+                supers.push(env.rg_spans[0].clone());
+                push(&mut dec, &mut run, vec![env.rg_spans[0].clone()], false)?
+            }
+            Pre::PushLastRowGroup => {
+                supers.push(env.rg_spans.last().unwrap().clone());
+                push(&mut dec, &mut run, vec![env.rg_spans.last().unwrap().clone()], false)?
+            }
             Pre::Rebuild | Pre::RebuildBatch2 => {
                 let bb = dec.buffered_bytes();
                 let mut b = dec.into_builder().map_err(|e| perr("into_builder", e))?;
@@ -246,6 +264,7 @@ pub fn run_push(fc: &FileCtx, o: &Opts, api0: Api, script: &[(usize, usize)], wa
                     return Err(v("clear_all_ranges", format!("buffered_bytes {} after clear_all_ranges", dec.buffered_bytes())));
                 }
                 answered = None;
+                supers.clear();
             }
             Pre::SwitchApi => {
                 api = if api == Api::Decode { Api::Reader } else { Api::Decode };
@@ -267,7 +286,10 @@ pub fn run_push(fc: &FileCtx, o: &Opts, api0: Api, script: &[(usize, usize)], wa
                     if b.num_rows() > bs || b.num_rows() == 0 {
                         return Err(v("batch-size", format!("batch of {} rows, batch size {bs}", b.num_rows())));
                     }
-                    push_rows(&mut rows, &b);
+                    let mut r = vec![];
+                    push_rows(&mut r, &b);
+                    emitted += r.len();
+                    out.push(Chunk::Rows(r));
                     R::Data
                 }
                 DecodeResult::Finished => R::Finished,
@@ -276,16 +298,20 @@ pub fn run_push(fc: &FileCtx, o: &Opts, api0: Api, script: &[(usize, usize)], wa
                 DecodeResult::NeedsData(r) => R::Needs(r),
                 DecodeResult::Data(reader) => {
                     if api == Api::ReaderDeferred {
-                        deferred.push(reader);
+                        n_deferred += 1;
+                        out.push(Chunk::Deferred(reader));
                     } else {
+                        let mut rows = vec![];
                         for b in reader {
-                            let b = b.map_err(|e| (format!("c15:push:error:reader:{}", vcore::strip_digits(&e.to_string())), e.to_string()))?;
+                            let b = b.map_err(|e| (format!("c15:error:{}", vcore::strip_digits(&e.to_string())), format!("reader: {e}")))?;
                             validate_batch(&b).map_err(|e| ("wf:c15:push:batch".to_string(), e))?;
                             if b.num_rows() > bs || b.num_rows() == 0 {
                                 return Err(v("batch-size", format!("batch of {} rows, batch size {bs}", b.num_rows())));
                             }
                             push_rows(&mut rows, &b);
                         }
+                        emitted += rows.len();
+                        out.push(Chunk::Rows(rows));
                     }
                     R::Data
                 }
@@ -297,7 +323,7 @@ pub fn run_push(fc: &FileCtx, o: &Opts, api0: Api, script: &[(usize, usize)], wa
             R::Data => 1,
             R::Finished => 2,
         };
-        run.states.push((kind, dec.is_at_row_group_boundary(), dec.row_groups_remaining(), dec.buffered_bytes(), rows.len() + deferred.len() * 1000));
+        run.states.push((kind, dec.is_at_row_group_boundary(), dec.row_groups_remaining(), dec.buffered_bytes(), emitted + n_deferred * 1000));
         match res {
             R::Needs(rs) => {
                 tr!("call#{} {:?} -> NeedsData({rs:?})", run.calls, api);
@@ -313,6 +339,11 @@ pub fn run_push(fc: &FileCtx, o: &Opts, api0: Api, script: &[(usize, usize)], wa
                 if let Some(prev) = &answered {
                     if let Some(r) = rs.iter().find(|r| covered(prev, r)) {
                         return Err(v("no-progress:range-requested-again", format!("{r:?} requested again right after {prev:?} was supplied in full")));
+                    }
+                }
+                for r in &rs {
+                    if let Some(b) = supers.iter().find(|b| b.start <= r.start && b.end >= r.end && (b.start < r.start || b.end > r.end)) {
+                        return Err(v("buffered-bytes-requested-again", format!("{r:?} requested although the enclosing range {b:?} was pushed earlier and never cleared by the caller")));
                     }
                 }
                 if let Some(missing) = must_rerequest.take() {
@@ -379,10 +410,15 @@ pub fn run_push(fc: &FileCtx, o: &Opts, api0: Api, script: &[(usize, usize)], wa
                         must_rerequest = Some(rs.clone());
                         answered = None;
                     }
-                    Ans::PlusMinusOne => push(&mut dec, &mut run, rs.iter().map(|r| r.start.saturating_sub(1)..(r.end + 1).min(env.file_len)).collect(), false)?,
+                    Ans::PlusMinusOne => {
+                        let x: Vec<Range<u64>> = rs.iter().map(|r| r.start.saturating_sub(1)..(r.end + 1).min(env.file_len)).collect();
+                        supers.extend(x.iter().cloned());
+                        push(&mut dec, &mut run, x, false)?
+                    }
                     Ans::OneEnclosing => {
                         let lo = rs.iter().map(|r| r.start).min().unwrap();
                         let hi = rs.iter().map(|r| r.end).max().unwrap();
+                        supers.push(lo..hi);
                         push(&mut dec, &mut run, vec![lo..hi], false)?
                     }
                     Ans::WholeRowGroups => {
@@ -393,12 +429,17 @@ pub fn run_push(fc: &FileCtx, o: &Opts, api0: Api, script: &[(usize, usize)], wa
                                 x.push(r.clone());
                             }
                         }
+                        supers.extend(touched.iter().map(|g| env.rg_spans[*g].clone()));
                         push(&mut dec, &mut run, x, false)?
                     }
-                    Ans::WholeFile => push(&mut dec, &mut run, vec![0..env.file_len], false)?,
+                    Ans::WholeFile => {
+                        supers.push(0..env.file_len);
+                        push(&mut dec, &mut run, vec![0..env.file_len], false)?
+                    }
                     Ans::ExactPlusNextRowGroup => {
                         let mut x = rs.clone();
                         x.push(env.rg_spans[next_rg.unwrap()].clone());
+                        supers.push(env.rg_spans[next_rg.unwrap()].clone());
                         push(&mut dec, &mut run, x, false)?
                     }
                     Ans::ExactThenSwitchApi => {
@@ -408,7 +449,7 @@ pub fn run_push(fc: &FileCtx, o: &Opts, api0: Api, script: &[(usize, usize)], wa
                 }
             }
             R::Data => {
-                tr!("call#{} {:?} -> Data (rows so far {})", run.calls, api, rows.len());
+                tr!("call#{} {:?} -> Data (rows so far {})", run.calls, api, emitted);
                 answered = None;
                 if must_rerequest.take().is_some_and(|m| !m.is_empty()) {
                     return Err(v("data-without-requested-bytes", "decoder produced data although requested ranges were never supplied".into()));
@@ -439,11 +480,17 @@ pub fn run_push(fc: &FileCtx, o: &Opts, api0: Api, script: &[(usize, usize)], wa
             return Err(v("push-after-finished-accepted", "push_range on a finished decoder returned Ok".into()));
         }
     }
-    for reader in deferred {
-        for b in reader {
-            let b = b.map_err(|e| (format!("c15:push:error:reader:{}", vcore::strip_digits(&e.to_string())), e.to_string()))?;
-            validate_batch(&b).map_err(|e| ("wf:c15:push:batch".to_string(), e))?;
-            push_rows(&mut rows, &b);
+    let mut rows: Rows = vec![];
+    for c in out {
+        match c {
+            Chunk::Rows(r) => rows.extend(r),
+            Chunk::Deferred(reader) => {
+                for b in reader {
+                    let b = b.map_err(|e| (format!("c15:error:{}", vcore::strip_digits(&e.to_string())), e.to_string()))?;
+                    validate_batch(&b).map_err(|e| ("wf:c15:push:batch".to_string(), e))?;
+                    push_rows(&mut rows, &b);
+                }
+            }
         }
     }
     if &rows != want {
@@ -453,6 +500,9 @@ pub fn run_push(fc: &FileCtx, o: &Opts, api0: Api, script: &[(usize, usize)], wa
 }
 
 pub struct DfsTotals {
+    /// traces with fewer deviations than this are executed (to discover decision points) but not counted
+    /// or reported: another work item covers them
+    pub count_from: usize,
     pub traces: u64,
     pub transitions: u64,
     pub states: HashSet<(u8, bool, usize, u64, usize)>,
@@ -463,22 +513,31 @@ pub struct DfsTotals {
 /// stateless DFS over scripts with at most `bound` deviations
 fn dfs_push(fc: &FileCtx, o: &Opts, api: Api, want: &Rows, bound: usize, script: &mut Vec<(usize, usize)>, from: usize, tot: &mut DfsTotals, viol: &mut Vec<(Viol, Vec<(usize, usize)>)>) {
     let r = catch(|| run_push(fc, o, api, script, want, false));
-    tot.traces += 1;
+    let counted = script.len() >= tot.count_from;
+    if counted {
+        tot.traces += 1;
+    }
     let run = match r {
         Ok(Ok(run)) => run,
         Ok(Err(vl)) => {
-            viol.push((vl, script.clone()));
+            if counted {
+                viol.push((vl, script.clone()));
+            }
             return;
         }
         Err(p) => {
-            viol.push(((format!("c15:push:{}", p.fingerprint()), format!("{p:?}")), script.clone()));
+            if counted {
+                viol.push(((format!("c15:push:{}", p.fingerprint()), format!("{p:?}")), script.clone()));
+            }
             return;
         }
     };
-    tot.transitions += (run.calls + run.pushes) as u64;
-    tot.max_depth = tot.max_depth.max(run.calls as u64);
-    tot.max_requested_ratio = tot.max_requested_ratio.max(run.requested_bytes as f64 / fc.f.bytes.len() as f64);
-    tot.states.extend(run.states.iter().cloned());
+    if counted {
+        tot.transitions += (run.calls + run.pushes) as u64;
+        tot.max_depth = tot.max_depth.max(run.calls as u64);
+        tot.max_requested_ratio = tot.max_requested_ratio.max(run.requested_bytes as f64 / fc.f.bytes.len() as f64);
+        tot.states.extend(run.states.iter().cloned());
+    }
     if script.len() >= bound {
         return;
     }
@@ -669,7 +728,7 @@ fn drive<T>(mut fut: Pin<&mut (dyn Future<Output = T> + '_)>, sh: &Arc<Mutex<Sha
 pub fn run_async(fc: &FileCtx, o: &Opts, mode: AsyncMode, pend: &[usize], want: &Rows) -> Result<AsyncRun, Viol> {
     let sh = Arc::new(Mutex::new(Shared { pend: pend.to_vec(), ..Default::default() }));
     let reader = AdvReader { data: fc.f.bytes.clone(), meta: None, vectored: mode.vectored, sh: sh.clone() };
-    let aerr = |what: &str, e: String| -> Viol { (format!("c15:async:error:{what}:{}", vcore::strip_digits(&e)), e) };
+    let aerr = |what: &str, e: String| -> Viol { (format!("c15:error:{}", vcore::strip_digits(&e)), format!("{what}: {e}")) };
     let mut counters = (0usize, 0usize);
     let mut states = vec![];
     let bs = o.batch.unwrap_or(1024).min(fc.f.nrows);
@@ -817,12 +876,26 @@ fn schedule_options(fc: &FileCtx) -> Vec<Opts> {
         v.push(Opts { rgs: Some(vec![0, 2]), policy: 2, sel: Some(SelSpec { bits: (0..fc.f.rg_sizes[0] + fc.f.rg_sizes[2]).map(|i| i % 2 == 0).collect(), pres: PRES_MIN }), ..Default::default() });
         v.push(Opts { rgs: Some(vec![1, 2]), offset: Some(fc.f.rg_sizes[1]), ..Default::default() });
     }
+    v.push(Opts { limit: Some(1), ..Default::default() });
+    v.push(Opts { offset: Some(fc.f.rg_sizes[0]), batch: Some(3), ..Default::default() });
+    v.push(Opts { sel: Some(SelSpec { bits: pat(&|i| i >= fc.f.rg_sizes[0]), pres: PRES_MASK }), policy: 1, page_index: true, ..Default::default() });
+    v.push(Opts { sel: Some(SelSpec { bits: pat(&|i| i == n / 2), pres: PRES_MIN }), policy: 1, page_index: true, ..Default::default() });
+    v.push(Opts { preds: vec![p(PredKind::False, vec![0])], ..Default::default() });
+    if fc.f.rg_sizes.len() == 3 {
+        v.push(Opts {
+            rgs: Some(vec![2, 0]),
+            preds: vec![p(PredKind::Hash(1), vec![nl - 1]), p(PredKind::Hash(2), vec![0])],
+            sel: Some(SelSpec { bits: (0..fc.f.rg_sizes[0] + fc.f.rg_sizes[2]).map(|i| i % 3 != 0).collect(), pres: PRES_SPLIT }),
+            offset: Some(1),
+            ..Default::default()
+        });
+    }
     let _ = bits;
     v
 }
 
 enum Item {
-    PushDfs { file: usize, opt: usize, api: Api, bound: usize },
+    PushDfs { file: usize, opt: usize, api: Api, bound: usize, count_from: usize },
     AsyncDfs { file: usize, opt: usize, mode: usize, bound: usize },
     /// option sweep: one option point, all front ends under the cooperative environment + fixed adversarial scripts
     Sweep { file: usize, opts: Opts },
@@ -850,7 +923,7 @@ fn mode_json(m: AsyncMode) -> Value {
     json!({"vectored": m.vectored, "metadata_up_front": m.metadata_up_front, "row_group_api": m.row_group_api, "spurious_poll": m.spurious_poll})
 }
 
-fn sweep(fc: &FileCtx, o: &Opts, idx: u64, st: &mut Stats, tot: &mut DfsTotals) {
+fn sweep(fc: &FileCtx, o: &Opts, idx: u64, st: &mut Stats, tot: &mut DfsTotals, deep: bool) {
     let want = match catch(|| sync_rows(fc, o)) {
         Ok(Ok(w)) => w,
         Ok(Err(e)) => {
@@ -869,6 +942,36 @@ fn sweep(fc: &FileCtx, o: &Opts, idx: u64, st: &mut Stats, tot: &mut DfsTotals) 
         return;
     }
     let nontrivial = (!want.is_empty() && want.len() < fc.f.nrows) as u64;
+    if deep {
+        // thorough tier: every single deviation (DFS bound 1) per API / async mode instead of fixed scripts
+        let cls = |front: &str| format!("{front}/agree/{}", if want.is_empty() { "no-rows" } else if want.len() == fc.f.nrows { "all-rows" } else { "some-rows" });
+        for api in APIS {
+            let mut viol = vec![];
+            let before = tot.traces;
+            dfs_push(fc, o, api, &want, 1, &mut vec![], 0, tot, &mut viol);
+            let n = tot.traces - before;
+            st.add("sweep-push", n, n * nontrivial);
+            st.outcome_n(&cls("push"), n - viol.len() as u64);
+            for ((fp, msg), script) in viol {
+                st.outcome("violation");
+                st.violate(idx, fp, format!("{} {} api={} script={script:?}: {msg}", fc.f.name, opts_json(o), api_name(api)), || case_json(fc, o, "push", json!({"api": api_name(api), "script": script})));
+            }
+        }
+        for mi in [0usize, 3, 5, 14] {
+            let mode = async_mode(mi);
+            let mut viol = vec![];
+            let before = tot.traces;
+            dfs_async(fc, o, mode, &want, 1, &mut vec![], 0, tot, &mut viol);
+            let n = tot.traces - before;
+            st.add("sweep-async", n, n * nontrivial);
+            st.outcome_n(&cls("async"), n - viol.len() as u64);
+            for ((fp, msg), pend) in viol {
+                st.outcome("violation");
+                st.violate(idx, fp, format!("{} {} mode={mode:?} pend={pend:?}: {msg}", fc.f.name, opts_json(o)), || case_json(fc, o, "async", json!({"mode": mode_json(mode), "pend": pend})));
+            }
+        }
+        return;
+    }
     // push: cooperative + three fixed adversarial scripts per API
     for api in APIS {
         for script in [vec![], vec![(0usize, 1usize)], vec![(1, 4)], vec![(1, 7), (3, 1)]] {
@@ -880,7 +983,7 @@ fn sweep(fc: &FileCtx, o: &Opts, idx: u64, st: &mut Stats, tot: &mut DfsTotals) 
                     tot.transitions += (run.calls + run.pushes) as u64;
                     tot.states.extend(run.states.iter().cloned());
                     tot.max_depth = tot.max_depth.max(run.calls as u64);
-                    st.outcome(if want.is_empty() { "agree/no-rows" } else { "agree/rows" });
+                    st.outcome(if want.is_empty() { "push/agree/no-rows" } else if want.len() == fc.f.nrows { "push/agree/all-rows" } else { "push/agree/some-rows" });
                 }
                 Ok(Err((fp, msg))) => {
                     st.outcome("violation");
@@ -905,7 +1008,7 @@ fn sweep(fc: &FileCtx, o: &Opts, idx: u64, st: &mut Stats, tot: &mut DfsTotals) 
                     for (k, l, r) in &run.states {
                         tot.states.insert((*k, false, *l, pend.len() as u64, *r));
                     }
-                    st.outcome(if want.is_empty() { "agree/no-rows" } else { "agree/rows" });
+                    st.outcome(if want.is_empty() { "async/agree/no-rows" } else if want.len() == fc.f.nrows { "async/agree/all-rows" } else { "async/agree/some-rows" });
                 }
                 Ok(Err((fp, msg))) => {
                     st.outcome("violation");
@@ -982,13 +1085,13 @@ pub fn run(ctx: &Ctx) -> ! {
     let sched_opts: Vec<Vec<Opts>> = files.iter().map(schedule_options).collect();
     let mut items: Vec<Item> = vec![];
     let push_bound = ctx.pick(2, 3);
-    let async_bound = ctx.pick(2, 3);
+    let async_bound = ctx.pick(2, 4);
     for (fi, fc) in files.iter().enumerate() {
         for oi in 0..sched_opts[fi].len() {
             for api in APIS {
                 // the deepest bound on the multi-row-group layouts and the cooperative single-group ones
-                let bound = if api == Api::ReaderDeferred { push_bound - 1 } else { push_bound };
-                items.push(Item::PushDfs { file: fi, opt: oi, api, bound });
+                let bound = if api == Api::ReaderDeferred && ctx.quick() { push_bound - 1 } else { push_bound };
+                items.push(Item::PushDfs { file: fi, opt: oi, api, bound, count_from: 0 });
             }
             for mi in 0..ASYNC_MODES {
                 items.push(Item::AsyncDfs { file: fi, opt: oi, mode: mi, bound: async_bound });
@@ -998,11 +1101,15 @@ pub fn run(ctx: &Ctx) -> ! {
     }
     // option sweep: every configuration within 1 deviation x small core, plus the full core on two files
     for (fi, fc) in files.iter().enumerate() {
-        for (base, _ndev) in configs(fc, 1) {
+        for (base, ndev) in configs(fc, ctx.pick(1, 2)) {
             let t = fc.chosen_rows(&base);
             let pats: Vec<Option<Vec<bool>>> = vec![None, Some((0..t).map(|i| i % 2 == 0).collect()), Some((0..t).map(|i| (i * 7 + 3) % 5 < 2).collect()), Some((0..t).map(|i| i != 0 && i + 1 != t).collect())];
             for (pi, p) in pats.iter().enumerate() {
-                for (off, lim) in [(None, None), (Some(1), None), (None, Some(2)), (Some(2), Some(3))] {
+                for (oli, (off, lim)) in [(None, None), (Some(1), None), (None, Some(2)), (Some(2), Some(3))].into_iter().enumerate() {
+                    // 2-deviation configurations (thorough only) get a 2 x 2 core
+                    if ndev == 2 && (pi % 2 == 0 || oli % 3 != 0) {
+                        continue;
+                    }
                     let mut o = base.clone();
                     o.sel = p.as_ref().map(|b| SelSpec { bits: b.clone(), pres: [PRES_MIN, PRES_MASK_OFF, PRES_TRIM, PRES_MASK][pi] });
                     o.offset = off;
@@ -1024,13 +1131,27 @@ pub fn run(ctx: &Ctx) -> ! {
             }
         }
     }
+    // thorough, last (a time cap cuts these first): the traces with exactly one more deviation on the
+    // multi-row-group layouts, first option points, try_decode / try_next_reader
+    if !ctx.quick() {
+        for (fi, fc) in files.iter().enumerate() {
+            if fc.f.layout.three_rg {
+                for oi in 0..4 {
+                    for api in [Api::Decode, Api::Reader] {
+                        items.push(Item::PushDfs { file: fi, opt: oi, api, bound: push_bound + 1, count_from: push_bound + 1 });
+                    }
+                }
+            }
+        }
+    }
     let n_items = items.len() as u64;
     let states_total = AtomicUsize::new(0);
     let ratio_max = Mutex::new(0f64);
     let res = par_for(ctx, "c15", n_items, 1, |idx, st| {
-        let mut tot = DfsTotals { traces: 0, transitions: 0, states: HashSet::new(), max_depth: 0, max_requested_ratio: 0.0 };
+        let mut tot = DfsTotals { count_from: 0, traces: 0, transitions: 0, states: HashSet::new(), max_depth: 0, max_requested_ratio: 0.0 };
         match &items[idx as usize] {
-            Item::PushDfs { file, opt, api, bound } => {
+            Item::PushDfs { file, opt, api, bound, count_from } => {
+                tot.count_from = *count_from;
                 let fc = &files[*file];
                 let o = &sched_opts[*file][*opt];
                 match catch(|| sync_rows(fc, o)) {
@@ -1039,7 +1160,7 @@ pub fn run(ctx: &Ctx) -> ! {
                         dfs_push(fc, o, *api, &want, *bound, &mut vec![], 0, &mut tot, &mut viol);
                         let nontrivial = (!want.is_empty() && want.len() < fc.f.nrows) as u64;
                         st.add("push-schedule-dfs", tot.traces, tot.traces * nontrivial);
-                        st.outcome_n(if want.is_empty() { "agree/no-rows" } else { "agree/rows" }, tot.traces - viol.len() as u64);
+                        st.outcome_n(if want.is_empty() { "push/agree/no-rows" } else if want.len() == fc.f.nrows { "push/agree/all-rows" } else { "push/agree/some-rows" }, tot.traces - viol.len() as u64);
                         for ((fp, msg), script) in viol {
                             st.outcome("violation");
                             st.violate(idx, fp, format!("{} {} api={} script={script:?}: {msg}", fc.f.name, opts_json(o), api_name(*api)), || case_json(fc, o, "push", json!({"api": api_name(*api), "script": script})));
@@ -1061,7 +1182,7 @@ pub fn run(ctx: &Ctx) -> ! {
                     dfs_async(fc, o, mode, &want, *bound, &mut vec![], 0, &mut tot, &mut viol);
                     let nontrivial = (!want.is_empty() && want.len() < fc.f.nrows) as u64;
                     st.add("async-schedule-dfs", tot.traces, tot.traces * nontrivial);
-                    st.outcome_n(if want.is_empty() { "agree/no-rows" } else { "agree/rows" }, tot.traces - viol.len() as u64);
+                    st.outcome_n(if want.is_empty() { "async/agree/no-rows" } else if want.len() == fc.f.nrows { "async/agree/all-rows" } else { "async/agree/some-rows" }, tot.traces - viol.len() as u64);
                     for ((fp, msg), pend) in viol {
                         st.outcome("violation");
                         st.violate(idx, fp, format!("{} {} mode={mode:?} pend={pend:?}: {msg}", fc.f.name, opts_json(o)), || case_json(fc, o, "async", json!({"mode": mode_json(mode), "pend": pend})));
@@ -1072,7 +1193,7 @@ pub fn run(ctx: &Ctx) -> ! {
                 }
             }
             Item::Sweep { file, opts } => {
-                sweep(&files[*file], opts, idx, st, &mut tot);
+                sweep(&files[*file], opts, idx, st, &mut tot, !ctx.quick());
                 if idx == n_items - 1 {
                     st.sample("sweep", || case_json(&files[*file], opts, "all", json!(null)));
                 }
@@ -1092,11 +1213,11 @@ pub fn run(ctx: &Ctx) -> ! {
     st.extra.insert(
         "space".into(),
         json!({"files": files.len(), "rows_per_file": n, "work_items": n_items,
-            "push": {"apis": ["try_decode", "try_next_reader", "try_next_reader-deferred-drain"], "deviation_bound": push_bound, "pre_call_alternatives": ["nothing", "push whole file (first call)", "push first row group (first call)", "push last row group (first call)", "into_builder+build (boundary)", "into_builder+with_batch_size(2)+build (boundary)", "clear_all_ranges (boundary)", "switch API"],
+            "push": {"apis": ["try_decode", "try_next_reader", "try_next_reader-deferred-drain"], "deviation_bound": push_bound, "deviation_bound_note": "quick: 1 for deferred drain; thorough: additionally all traces with exactly 4 deviations for try_decode/try_next_reader on the 3-row-group layouts, option points 0..4 (scheduled last)", "pre_call_alternatives": ["nothing", "push whole file (first call)", "push first row group (first call)", "push last row group (first call)", "into_builder+build (boundary)", "into_builder+with_batch_size(2)+build (boundary)", "clear_all_ranges (boundary)", "switch API"],
                 "answer_alternatives": ["exact", "reversed", "rotated", "push_range one by one", "every range twice", "first range only then call", "all but first then call", "nothing then call", "each range +-1 byte", "one enclosing range", "whole row groups", "whole file", "exact + next row group early", "exact then switch API"]},
             "async": {"modes": "vectored x metadata-up-front x next_row_group x spurious-poll (16)", "deviation_bound(pending gates)": async_bound},
-            "schedule_option_points_per_file": "7 (9 for 3-row-group layouts)",
-            "sweep": "every configuration within 1 deviation x 4 selections x 4 (offset,limit) pairs on all files; full selection x offset x limit core on mix3/L1 and struct-with-list/L5; each under 12 push schedules and 12 async schedules",
+            "schedule_option_points_per_file": "12 (15 for 3-row-group layouts)",
+            "sweep": "every configuration within 1 deviation x 4 selections x 4 (offset,limit) pairs on all files (thorough: also every 2-deviation configuration x 2 selections x 2 pairs); full selection x offset x limit core on mix3/L1 and struct-with-list/L5; quick: each under 12 fixed push schedules and 12 fixed async schedules; thorough: each under every single-deviation push schedule (3 APIs) and every single pending gate (4 async modes)",
             "max_requested_bytes_over_file_len": *ratio_max.lock().unwrap(),
             "state_key": "(last result kind, is_at_row_group_boundary, row_groups_remaining, buffered_bytes, rows emitted) per work item, summed over work items"}),
     );
